@@ -47,8 +47,17 @@ size_t g_outlen;      /* out: offset at which the terminator is stored */
 int g_done;           /* out: the tail copy was reached */
 const char *g_in0;
 char *g_buf0;
+#ifdef REPLAY
+#include "igris/string/memmem.c"      /* native runs call the real routine (under cbmc it is used through its contract) */
+#endif
 #include "igris/string/replace_substrings.c"
 
+/* proof mode: inlen <= 2^38 (headroom for the 128-bit length sum); witness / fallback runs: the small-size bound itself */
+#ifdef WITNESS_MODE
+#define C19_RS_MAXIN VC_MAXOBJ
+#else
+#define C19_RS_MAXIN (VC_MAXOBJ / 4)
+#endif
 void harness(void)
 {
     WIT(size_t, maxsize);
@@ -58,7 +67,7 @@ void harness(void)
     WIT_ARR(char, ci, 6);
     WIT_ARR(char, cs, 6);
     WIT_ARR(char, cr, 6);
-    __CPROVER_assume(inlen <= VC_MAXOBJ / 4 && maxsize <= VC_MAXOBJ && sublen <= VC_MAXOBJ && replen <= VC_MAXOBJ);
+    __CPROVER_assume(inlen <= C19_RS_MAXIN && maxsize <= VC_MAXOBJ && sublen <= VC_MAXOBJ && replen <= VC_MAXOBJ);
     /* finding C19_replace_substrings_maxsize (fixed): no restriction on maxsize any more; while the entry is open the carve-out of the
        before-fix unit applies (this file is the after-fix version: KF is 0) */
     C19_BLOCK(input, inlen, ci);
